@@ -35,6 +35,9 @@ DEFS = {
     "Kw": ("op", "query", "type", "query type { version count }", ["version", "count"], []),
     "UF": ("frag", None, "UF", "fragment UF on User { id name }", None, None),
     "QF": ("frag", None, "QF", "fragment QF on Q { count }", None, None),
+    # fragments that share their NAME with an operation of the same document (separate namespaces in GraphQL)
+    "FAlpha": ("frag", None, "Alpha", "fragment Alpha on Q { count }", None, None),
+    "FGamma": ("frag", None, "GammaOp", "fragment GammaOp on User { id name }", None, None),
 }
 
 
@@ -64,6 +67,14 @@ def documents():
             for frs in fr_sets:
                 for perm in itertools.permutations(list(chosen) + frs):
                     out.append(("order " + " ".join(perm), list(perm), "\n".join(DEFS[k][3] for k in perm) + "\n"))
+    # namesakes: every order of operations and fragments where a fragment is called like one of the operations
+    for r in (2, 3):
+        for chosen in itertools.combinations(ops, r):
+            base = ["UF"] if "beta_op" in chosen else []
+            twins = [k for k, o in (("FAlpha", "Alpha"), ("FGamma", "GammaOp")) if o in chosen]
+            for tw in [[t] for t in twins] + ([twins] if len(twins) == 2 and r == 2 else []):
+                for perm in itertools.permutations(list(chosen) + base + tw):
+                    out.append(("order(namesake) " + " ".join(perm), list(perm), "\n".join(DEFS[k][3] for k in perm) + "\n"))
     out.append(("escapes", ["Esc"], DEFS["Esc"][3] + "\n"))
     out.append(("escapes + others", ["Alpha", "Esc", "QF"], "\n".join(DEFS[k][3] for k in ["Alpha", "Esc", "QF"])))
     out.append(("keyword-named operation", ["Kw", "Alpha"], DEFS["Kw"][3] + "\n" + DEFS["Alpha"][3] + "\n"))
@@ -312,7 +323,7 @@ def run(tier):
         "states": len(docs), "transitions": len(cases), "traces_validated_against_impl": validated,
         "evaluations": len(cases) + validated, "distinct_nontrivial": len(docs),
         "rule": "state = distinct document text: every order of every admissible set of 1-3 operations and 0-2 fragments "
-                "(canonical spacing), plus texts within %d trivia deviations (10 kinds at 5-7 positions incl. leading / trailing) "
+                "(canonical spacing), every order of the documents in which a fragment has the same name as one of the operations, plus texts within %d trivia deviations (10 kinds at 5-7 positions incl. leading / trailing) "
                 "of three base documents; transition = (document, mode, selected name, normalization, entry point): on "
                 "canonical documents every defined name, its CamelCase form and an undefined name for both modes and "
                 "normalizations and both entry points" % dev,
